@@ -4,17 +4,20 @@ import json, os, subprocess, sys, tempfile
 import xml.etree.ElementTree as ET
 base = json.load(open("/root/.vp/BASELINE.json"))
 repo = os.environ.get("VERIF_REPO", "/repo")
-out = tempfile.mktemp(suffix=".xml")
+extra = [a for a in sys.argv[1:] if not a.startswith("--junitxml")]
+keep = [a.split("=", 1)[1] for a in sys.argv[1:] if a.startswith("--junitxml=")]
+out = keep[0] if keep else tempfile.mktemp(suffix=".xml")
 env = dict(os.environ); env.pop("NOXREPO_POX_VERIF", None)
 env["PYTHONDONTWRITEBYTECODE"] = "1"
 subprocess.run(["/venv/bin/python", "-m", "pytest", "-ra", "-q", "-p", "no:cacheprovider", "--timeout=900",
-                "--continue-on-collection-errors", "--junitxml=" + out], cwd=repo, env=env,
+                "--continue-on-collection-errors", "--junitxml=" + out] + extra, cwd=repo, env=env,
                stdout=subprocess.DEVNULL, stderr=subprocess.DEVNULL)
 passed = set()
 for tc in ET.parse(out).getroot().iter("testcase"):
   if not list(tc):
     passed.add("%s::%s" % (tc.get("classname"), tc.get("name")))
-os.unlink(out)
+if not keep:
+  os.unlink(out)
 missing = [t for t in base["stable_pass"] if t not in passed]
 print("baseline: %d/%d stable tests pass" % (len(base["stable_pass"]) - len(missing), len(base["stable_pass"])))
 for m in missing: print("  MISSING", m)
